@@ -93,6 +93,19 @@ def rpms_roundtrip(sym, history):
     sym.check("mapping-not-mutated-by-dump", m.rpms == before)
     text2 = back.dumps()
     sym.check("second-dump-identical", text2 == text)
+    # the re-read manifest is a manifest like any other: a further add lands where the documented layout says, and is written
+    variant, arch = CELLS[len(history) % len(CELLS)]
+    ri = (len(history) + history[0][1]) % len(RPM_POOL)
+    nevra, category, srpm = RPM_POOL[ri]
+    path = sym.str("path_after", 3, minlen=1)
+    sym.assume(sym.not_(path.startswith("/")))
+    back.add(variant, arch, nevra, path, None, category, srpm)
+    key = SRPM_CANON[ri] if SRPM_CANON[ri] is not None else RPM_CANON[ri]
+    expected.setdefault(variant, {}).setdefault(arch, {}).setdefault(key, {})[RPM_CANON[ri]] = {"sigkey": None, "path": path, "category": category}
+    sym.check("add-after-reload-follows-the-calls", back.rpms == expected)
+    third = Rpms()
+    third.loads(back.dumps())
+    sym.check("add-after-reload-read-back", third.rpms == expected)
 
 
 def modules_roundtrip(sym, history, share=False):
